@@ -29,6 +29,7 @@ type Engine struct {
 	Structs   map[string]*types.Named
 	Trusted   []string // ;;@trusted lines of the prelude
 	Tables    *Tables
+	RecDefs   map[string]*recDef
 }
 
 func loadEngine(repo, verif string) (*Engine, error) {
@@ -72,8 +73,8 @@ func loadEngine(repo, verif string) (*Engine, error) {
 			}
 		}
 	}
-	e.Prelude = pb.String()
-	e.Funcs = parsePreludeSigs(e.Prelude)
+	e.Funcs = parsePreludeSigs(pb.String())
+	e.Prelude, e.RecDefs = splitRecDefs(pb.String())
 
 	// contracts
 	cpath := filepath.Join(repo, "contracts_verif.go")
